@@ -289,6 +289,13 @@ def run_sched(shard, rec, B):
 def run_rand(shard, rec, B):
     rng = gen.rng_for(rec)
     Ns = [3, 3, 4, 4, 5, 6, 8, 12] if env.mode() == "jit" else [3, 4, 5]
+    for N in (1, 3):    # measuring nothing changes nothing and has probability one
+        tg, tp, r = O.random_tableau(rng, N)
+        S = B.State(tg.copy(), tp.copy(), r)
+        ok, res = rec.attempt("measure.empty", N, lambda: S.measure(B.PauliList(np.zeros((0, 2 * N), dtype=np.int64), np.zeros(0, dtype=np.int64))))
+        if ok:
+            lg, lp, lr = B.state(S)
+            rec.check("measure.empty", len(res[0]) == 0 and float(res[1]) == 0.0 and O.state_key(lg, lp, lr) == O.state_key(tg, tp, r), ["empty", N], False)
     for t in range(shard["n"]):
         N = Ns[t % len(Ns)]
         r = t % (N + 1) if t % 2 else int(rng.integers(0, N + 1))
